@@ -22,4 +22,6 @@ CASES = [
      "edits": [("io/blackbird_io.py", 'op["args"] = list(cmd.op.p)', 'op["args"] = cmd.op.p')]},
     {"id": "twin-blackbird-args-copied-otherwise", "expect": "silent",
      "edits": [("io/blackbird_io.py", 'op["args"] = list(cmd.op.p)', 'op["args"] = cmd.op.p[:]')]},
+    {"id": "xir-writer-evaluates-symbolic-parameters", "expect": "fire", "key": "C14.fields",
+     "edits": [("io/xir_io.py", '                    if not getattr(a, "free_symbols", None):\n                        try:\n', '                    if True:\n                        try:\n')]},
 ]
